@@ -300,7 +300,10 @@ def check(case, ctx) -> Result:
                     if shape.startswith("TSS"):
                         add_ok = sorted(acc.get("added", [])) == sorted(n - o)
                     else:
-                        add_ok = (n - o) <= set(acc.get("modified", [])) <= n
+                        # dictionaries: keys new to the consumer AND keys it already held whose value differs in the new
+                        # target are part of the retarget delta
+                        changed = {k_ for k_ in (o & n) if isinstance(old, dict) and old.get(k_) != new_v.get(k_)}
+                        add_ok = ((n - o) | changed) <= set(acc.get("modified", [])) <= n
                     if add_ok and g_removed == (o - n):
                         ok = True
                     elif add_ok and g_removed > (o - n) and not ((g_removed - (o - n)) & (o | n)):
